@@ -21,6 +21,19 @@ def check_case(case):
         spec = spec_from_forest(case["f"], case["pal"], case["pol"], case["srs"])
         spec = with_phases(spec, PH2, {case["who"]: case["pc"]})
         phys.solve_and_check(r, spec, ("C02",), case["ta"])
+    elif case["fam"] == "orderstruct":
+        # two-source structures of C07 (mux inputs up to two elements away from their source), reached through an edit history with an analysis in the middle
+        from . import c07
+        r = Res()
+        struct = {k: (v[0], tuple(v[1])) for k, v in case["struct"].items()}
+        orders = c07.linear_extensions(struct)
+        if not case.get("holes"):
+            orders = orders[:1]
+        elif len(struct) > 6:
+            orders = orders[::max(1, len(orders) // 12)]   # larger structures: a dozen construction orders spread over the list
+        for order in orders:   # the construction order decides which component re-uses the freed node index
+            spec = c07.to_spec(struct, order, case["pal"], case["volts"], case["phased"])
+            phys.solve_and_check(r, spec, ("C02",), case["ta"], holes=case.get("holes"))
     elif case["fam"] == "taseq":
         # ONE system analysed at several ambient temperatures in a row: every table obeys peak = ta + rise for ITS ta
         from ..sysmodel import build, observe, resolve
@@ -108,6 +121,12 @@ def gen_cases(tier):
                     if str(f1).count("MX") + str(f2).count("MX") > 1:
                         continue
                     yield dict(fam="two", f=f1, f2=f2, pal=pal, pol=1, srs=SRS, n=n1 + 1, ta=-40.0)
+        from . import c07
+        for st in c07.structures("quick"):
+            if "M" in st:
+                for volts in ((1, 1, 1), (0, 1, 1), (1, 0, 1)):
+                    for holes in (None, "analysed"):
+                        yield dict(fam="orderstruct", struct={k: [v[0], list(v[1])] for k, v in st.items()}, pal=pal, volts=list(volts), phased=(holes is None), ta=25.0, holes=holes, n=len(st))
 
 
 def replay(doc):
